@@ -20,12 +20,14 @@ def features(t, env, out=None, inline=False, seen=None, tagdefault=None):
     top = out is None
     out = set() if out is None else out
     if top and t["k"] == "REF" and genmod.resolve_kind(t, env) == "CHOICE": out.add("choice_alias")
+    if top and t["k"] == "REF" and genmod.resolve_kind(t, env) == "ENUMERATED": out.add("enum_alias")
     seen = seen or set()
     k = t["k"]
     if k == "REF":
         if t["name"] in seen: return out
         tgt = env[t["name"]]
         if tgt["k"] == "REF" and genmod.resolve_kind(tgt, env) == "CHOICE": out.add("choice_alias")
+        if tgt["k"] == "REF" and genmod.resolve_kind(tgt, env) == "ENUMERATED": out.add("enum_alias")
         return features(tgt, env, out, False, seen | {t["name"]}, tagdefault)
     out.add(k)
     if k == "INTEGER":
